@@ -111,12 +111,37 @@ Proof.
   unfold of_json. rewrite json_tree_rt. reflexivity.
 Qed.
 
-(* a mixed argument list has no NBT list image: the faithful model refutes the unguarded round trip *)
+(* the encoder's own checks pass on every well-formed tree: WriteTo succeeds on every msg_ok component *)
+Lemma wf_enc_checks : forall t, wf_tag t = true -> enc_checks t = true.
+Proof.
+  induction t as [id raw|id es|s|et items IH|fs IH] using tag_ind2; intros H; try reflexivity.
+  - cbn [wf_tag] in H. unfold str_ok in H. apply andb_true_iff in H. destruct H as [H _]. exact H.
+  - cbn [wf_tag] in H. apply andb_true_iff in H. destruct H as [_ H].
+    cbn [enc_checks]. apply forallb_forall. intros x Hx. rewrite forallb_forall in H.
+    specialize (H x Hx). apply andb_true_iff in H. destruct H as [H1 H2].
+    rewrite Forall_forall in IH. cbv beta. rewrite H1, (IH x Hx H2). reflexivity.
+  - cbn [wf_tag] in H. cbn [enc_checks]. apply forallb_forall. intros x Hx.
+    rewrite forallb_forall in H. specialize (H x Hx). apply andb_true_iff in H. destruct H as [H1 H2].
+    unfold str_ok in H1. apply andb_true_iff in H1. destruct H1 as [H1 _].
+    rewrite Forall_forall in IH. cbv beta. apply andb_true_iff. split; [exact H1 | exact (IH x Hx H2)].
+Qed.
+Theorem wire_opt_ok m : msg_ok m = true -> wire_opt m = Some (wire m).
+Proof. intros H. unfold wire_opt. rewrite (wf_enc_checks _ (wf_to_nbt m H)). reflexivity. Qed.
+Theorem type_write_opt_ok id sender target : msg_ok sender = true ->
+  match target with Some t => msg_ok t = true | None => True end ->
+  type_write_opt id sender target = Some (type_write id sender target).
+Proof.
+  intros Hs Ht. unfold type_write_opt. rewrite (wf_enc_checks _ (wf_to_nbt sender Hs)).
+  destruct target as [t|]; [rewrite (wf_enc_checks _ (wf_to_nbt t Ht))|]; reflexivity.
+Qed.
+
+(* a mixed argument list has no NBT list image: the encoder refuses it, so such a component cannot be
+   written in the NBT form at all (the JSON form is unaffected) *)
 Definition mixed_witness : msg :=
   Msg [] style0 None [107] [AS [120]; AM (text_msg [121])] [].
-Lemma wire_rt_mixed_refuted :
-  exists m, homog m = false /\ msg_read (wire m) <> Some (norm m, []).
-Proof. exists mixed_witness. split; [reflexivity | vm_compute; discriminate]. Qed.
+Lemma wire_mixed_refuted :
+  exists m, homog m = false /\ wire_opt m = None /\ of_json (to_json m) = Some (norm m).
+Proof. exists mixed_witness. split; [reflexivity|]. split; vm_compute; reflexivity. Qed.
 
 (* accepted shapes: bare string, list of strings, list of components (both forms) *)
 Lemma accepts_nbt_string_wire s rest : str_ok s = true ->
